@@ -437,12 +437,22 @@ func (g *gen) allowList(class, alg string) []string {
 func pickMutation(r drv.Rand, benign int) string {
 	// benign/100: a token the verifier should accept as far as the token goes
 	if r.IntN(100) < benign {
-		return drv.Pick(r, []string{"none", "none", "none", "none", "typ", "ws_outer", "ws_inner", "flat_same", "general_one"})
+		return drv.Pick(r, []string{"none", "none", "none", "none", "typ", "ws_outer", "ws_inner", "flat_same", "general_one", "flat_kid_unprot", "flat_alg_conflict"})
+	}
+	if r.Chance(1, 10) { // a kid named in the unprotected header only, carried by no key
+		return "flat_kid_unprot_other"
 	}
 	if r.Chance(1, 5) { // the mutations that put OTHER bytes where the claims are read from
-		return drv.Pick(r, []string{"flat_evil", "two_sigs_evil", "payload_swap", "reencode", "flat_evil"})
+		return drv.Pick(r, []string{"flat_evil", "two_sigs_evil", "payload_swap", "reencode", "flat_evil",
+			"flat_kid_unprot_other", "flat_kid_unprot_other", "flat_kid_unprot_other", "flat_kid_conflict", "flat_kid_unprot"})
 	}
-	return drv.Pick(r, tok.Mutations[4:])
+	for {
+		// general_kid_unprot_other is drawn by checkSigCase only (open finding Fxx-C02-1:
+		// there every disagreement is a spec violation attributed by its tags)
+		if m := drv.Pick(r, tok.Mutations[4:]); m != "general_kid_unprot_other" {
+			return m
+		}
+	}
 }
 
 // buildToken signs claims per scenario and applies mut; hs = sign with the
@@ -509,6 +519,8 @@ func (g *gen) checkSigCase() {
 	mut := pickMutation(r, 45)
 	if s.valid {
 		mut = drv.Pick(r, []string{"none", "none", "typ", "flat_same"})
+	} else if r.Chance(1, 20) {
+		mut = "general_kid_unprot_other"
 	}
 	t, m := g.buildToken(s, mut, c, evil, g.payloadOpts("ext"))
 	parsed := m.Bytes
@@ -1931,6 +1943,11 @@ func (g *gen) providerCase() {
 func (g *gen) payloadOpts(extraKey string) tok.PayloadOpts {
 	r := g.r
 	o := tok.PayloadOpts{ExtraKey: extraKey, Reverse: r.Bool(), AudSingle: r.Bool(), DupKey: r.Chance(1, 12), Escape: r.Chance(1, 10), Spaces: r.Chance(1, 10)}
+	if r.Chance(1, 6) { // the time claims spelled as non-integer JSON numbers
+		o.NumForm = drv.Pick(r, tok.NumForms)
+		o.NumWhich = drv.Pick(r, []string{"", "exp", "iat", "auth_time", "nbf"})
+		o.Nbf = time.Now().Unix() - 30
+	}
 	if r.Chance(1, 6) {
 		o.Lead = drv.Pick(r, []string{"", " ", "\n"})
 		o.Trail = drv.Pick(r, []string{"\n", " ", "\r\n"})
